@@ -618,3 +618,38 @@ pub fn midline_family(id0: usize, rng: &mut Rng, out: &mut Vec<String>) {
     let o = execute(&c, &default_cfg(rng));
     out.push(line_of(id0, &c, &o, &format!("i_fam=midline prelude={} stalled={} panicked={}", n, m, if o.panicked { 1 } else { 0 })));
 }
+
+/// C18 (and C01): an expectation on a request that is pipelined behind requests still being
+/// handled on other threads.  The interim response is due when the application asks for the body
+/// and it is that request's turn to write — the client, which withholds the body, has it in hand
+/// (behind the earlier responses) before it sends a single body byte.
+pub fn expmt_family(id0: usize, rng: &mut Rng, out: &mut Vec<String>) {
+    let k = rng.range(1, 3);
+    let mut reqs = vec![];
+    let mut script = vec![];
+    let mut delays = vec![];
+    for i in 0..k {
+        reqs.push(g::AReq::get(&format!("/before{}", i)));
+        script.push(g::simple_action(i, rng));
+        delays.push(*rng.pick(&[1_000u64, 300_000, 1_500_000]));
+    }
+    let mut r = g::AReq::get("/expecting");
+    r.method = "PUT".into();
+    r.hdrs.push((verif_harness::recase(rng, "Expect"), (*rng.pick(&["100-continue", "100-Continue"])).into()));
+    r.expect100 = true;
+    let n = *rng.pick(&[5usize, 1, 1500]);
+    g::set_body(rng, &mut r, g::Framing::Len, n);
+    reqs.push(r);
+    script.push(Action { as_reader: 1, read_total: n, buf: 4096, delay_ms: 0, fin: Finish::Respond(g::ok_resp(k, rng)), zero_read: false });
+    delays.push(0);
+    let mut base = g::assemble_pub(rng, &reqs, script);
+    base.mode = Mode::HalfClose;
+    // the client stops behind the head of the expecting request and waits for the server
+    let body_start = base.bytes.len() - n;
+    base.hold = Some(body_start);
+    base.intent.push_str(" i_holdneed=1");
+    let mut c = ctl(base);
+    c.handlers = Handlers::Threads(delays);
+    let o = execute(&c, &default_cfg(rng));
+    out.push(line_of(id0, &c, &o, "i_fam=expmt"));
+}
